@@ -113,6 +113,17 @@ chk("C05", "enum",
     "Writer and reference decoder share the vocabulary model and are cross-validated on every generated document; alphabet finite.",
     "DESIGN.md §3 C05")
 
+chk("C04", "bytes",
+    "deviation-bounded exhaustive exploration of decoder inputs (all strings of length <= 1/2, every truncation and every single token/byte deviation of every seed) on the implementation in crash-isolated worker processes",
+    "All 73 decode entry points are driven with every byte string of length <= 1 (thorough 2), and with every JSON/gob seed, each of its prefixes and each single-token (JSON) or single-byte (gob) deviation; a panic, a fatal crash of the worker, a hang (30 s watchdog per decode) or an allocation blow-up is a violation, and so is a panic in the follow-up operations on any returned value.",
+    "Reading D10; inputs are bounded deviations from well-formed seeds, not all byte strings; coverage-guided search is a different family and is not used.",
+    "DESIGN.md §3 C04", category="fault_enumeration")
+chk("C08", "sites+enum",
+    "exhaustive enumeration of all pointer-reinterpreting conversion sites x target fields (layout invariant after an offline type check) plus complete helper x source x form matrix executed under the runtime pointer checker",
+    "Static: every (*T)(unsafe.Pointer(x)) site of the current tree x every field of T must have the same name/term/type/offset in the source and T must not be larger; dynamic: every To*/On* helper x 14 source structs x pointer/value on saturated sources: shared properties read identically, writes through views of pointers propagate both ways, refusals return an error and no view; workers are built with -d=checkptr.",
+    "gc/amd64 layout model cross-checked with reflect; one open known finding (CollectionPage -> OrderedCollectionPage) is masked at its two keys.",
+    "DESIGN.md §3 C08")
+
 manifest = {
     "version": 1,
     "setup_cmd": "./setup.sh",
